@@ -178,6 +178,23 @@ class C06Sched(c07.C07Sched):
                 self.restart_soon.append(i)
                 w.probe('kill_aimed_at_compaction')
                 return [0.0, 'killop', i, rng.choice([1, 2, 3, 4, 6, 9]), rng.choice(['before', 'after', 'torn']), rng.choice([0.1, 0.5, 0.9])]
+        if self.s.get('p_kill_in_install', 0) > 0 and rng.random() < 0.05:
+            # a node that is in the middle of receiving a snapshot: die at one of the next storage ops (a chunk
+            # written to the temporary file, or - with the last chunk - the steps of the installation: the received
+            # file replacing the dump, the journal being cleared and rewritten, the .meta update)
+            cands = []
+            for h in w.hosts:
+                n = h.node
+                if n is None or h.readonly or h.doomed or h.fs.kill_at is not None:
+                    continue
+                ser = priv(n, 'SyncObj', 'serializer')
+                if priv(ser, 'Serializer', 'incomingTransmissionFile') is not None:
+                    cands.append(h.idx)
+            if cands and self._may_kill() and rng.random() < self.s['p_kill_in_install']:
+                i = rng.choice(cands)
+                self.restart_soon.append(i)
+                w.probe('kill_aimed_at_snapshot_install')
+                return [0.0, 'killop', i, rng.choice([1, 2, 3, 4, 5, 6, 8, 11, 15]), rng.choice(['before', 'after', 'torn']), rng.choice([0.1, 0.5, 0.9])]
         return c07.C07Sched.next_event(self)
 
 
@@ -213,6 +230,7 @@ class C06Spec(c01.C01Spec):
         s['w_start'] = rng.choice([0.1, 0.5])
         s['p_kill_voter'] = 0.0
         s['p_kill_in_compaction'] = rng.choice([0.0, 0.5, 1.0])
+        s['p_kill_in_install'] = rng.choice([0.0, 0.5, 1.0])
         s['max_down'] = rng.choice([1, 2, None, None])
         s['orphan_children'] = rng.random() < 0.5
         s['w_part'] = rng.choice([0.0, 0.004])
